@@ -12,6 +12,7 @@ mod visit;
 mod decode;
 mod features;
 mod gate;
+mod gcsuite;
 mod dwarf;
 mod gen;
 mod opsx;
@@ -61,6 +62,7 @@ fn main() {
         "maps" => maps::main(seed, &tier, only.as_deref()),
         "features" => features::main(seed, &tier, only.as_deref()),
         "gate" => gate::main(seed, &tier, only.as_deref()),
+        "gc" => gcsuite::main(seed, &tier, only.as_deref()),
         "gate-deep" => gate::deep(args[2].parse().unwrap()),
         "opsxtest" => {
             let u = opsx::universe(1);
